@@ -389,7 +389,7 @@ class Deriver:
         self.funcs = {}
 
     def table(self, enum):
-        e = self.mod.ns[enum]
+        e = unpoisoned(self.mod.ns[enum])
         return e.enum_canon  # value -> member
 
     def spec_of(self, func):
